@@ -633,7 +633,18 @@ type guardRule struct {
 	owner string // confined: name of the function whose dynamic extent may access it
 }
 
+type arrRange struct {
+	a      *ArrObj
+	lo, hi int
+}
+
+type guardedRange struct {
+	lo, hi int
+	r      *guardRule
+}
+
 type lockMonitor struct {
+	ranges  map[*ArrObj][]guardedRange // scalar arrays guarded per index range
 	cells   map[*Value]*guardRule
 	objs    map[interface{}]*guardRule
 	stop    map[interface{}]bool
@@ -647,6 +658,31 @@ func (ex *Exec) monitorAccess(c *Value, write bool, site ssa.Instruction) {
 	if r, ok := ex.monitor.cells[c]; ok {
 		ex.checkGuard(r, write, site)
 	}
+}
+
+// monitorArr: access to element idx of a scalar array. Arrays guarded per range are checked
+// against the rule of the range the index falls in (a symbolic index is checked only when the
+// array has a single guarded range; otherwise it is counted and skipped).
+func (ex *Exec) monitorArr(a *ArrObj, idx *Term, write bool, site ssa.Instruction) {
+	if ex.monitor == nil || !ex.monitorOn {
+		return
+	}
+	if rs, ok := ex.monitor.ranges[a]; ok {
+		if idx != nil && idx.IsConst() {
+			i := int(idx.val)
+			for _, g := range rs {
+				if i >= g.lo && i < g.hi {
+					ex.checkGuard(g.r, write, site)
+				}
+			}
+		} else if len(rs) == 1 {
+			ex.checkGuard(rs[0].r, write, site)
+		} else {
+			ex.counters["guard-range-symbolic-index-skipped"]++
+		}
+		return
+	}
+	ex.monitorObj(a, write, site)
 }
 
 func (ex *Exec) monitorObj(o interface{}, write bool, site ssa.Instruction) {
